@@ -415,6 +415,28 @@ def run(repo: Repo, chk: Check) -> None:
         chk.ob('R-PAIR', f.qualname, ok, 'zarith bit layout', f.loc, {'masks': sorted(masks), 'shifts': sorted(shifts)},
                what=f'{name} uses masks {sorted(map(hex, masks))} / shifts {sorted(shifts)}; Zarith layout needs '
                     f'{sorted(map(hex, need_masks))} / {sorted(need_shifts)}')
+    # the sign flag (bit 6) belongs to the FIRST byte of the encoding: in the writer it is OR-ed in before the loop that emits the 7-bit groups, never
+    # into the byte the loop wrote last
+    fint = repo.func(f'{FORGE}.forge_int')
+    loops = [n for n in ast.walk(fint.node) if isinstance(n, (ast.While, ast.For))]
+    late = []
+    if loops:
+        first_loop = min(l.lineno for l in loops)
+        for st in ast.walk(fint.node):
+            if isinstance(st, (ast.AugAssign, ast.Assign, ast.Expr)) and st.lineno > first_loop and not any(st.lineno >= l.lineno and st.lineno <= getattr(l, 'end_lineno', l.lineno) for l in loops):
+                for n in ast.walk(st):
+                    ops = []
+                    if isinstance(n, ast.BinOp) and isinstance(n.op, ast.BitOr):
+                        ops = [n.left, n.right]
+                    elif isinstance(n, ast.AugAssign) and isinstance(n.op, ast.BitOr):
+                        ops = [n.value]
+                    for o in ops:
+                        for c in ast.walk(o):
+                            if isinstance(c, ast.Constant) and isinstance(c.value, int) and not isinstance(c.value, bool) and c.value & 0x40 and c.value < 0x100:
+                                late.append(f'{fint.module.relpath}:{st.lineno} `{norm(st)[:60]}`')
+    chk.ob('R-PAIR', fint.qualname, not late, 'the sign flag is set on the first byte (before the groups are emitted)', fint.loc, {'sign_flag_set_after_the_loop': late},
+           what=f'forge_int ORs the sign bit in after the loop at {late[:1]}: for a magnitude of more than 6 bits the flag lands in the LAST byte, the number is read back positive '
+                'and with a different magnitude')
     # group-boundary guards of the integer writers: a comparison of the remaining magnitude with a constant decides "one more group or not";
     # as a half-line over the integers its boundary must be a group boundary: 0 (sign test), 1 (non-zero), 2^6 (first group) or 2^7.
     # `> 0x80`, `>= 0x7f`, `> 64` ... put one value on the wrong side: that value is written one group short / with a dangling continuation bit.
